@@ -7,6 +7,7 @@ import Omaha.Drv.Time
 import Omaha.Drv.Cup
 import Omaha.Drv.Request
 import Omaha.Drv.Response
+import Omaha.Drv.Uri
 
 open Omaha Omaha.Drv
 
@@ -17,6 +18,7 @@ def handleLine (line : String) : String :=
   | "cup" :: rest => handleCup rest
   | "wire-req" :: rest => handleRequest rest
   | "resp" :: rest => handleResponse rest
+  | "uri" :: rest => handleUri rest
   | _ => "bad-op"
 
 partial def loop (h : IO.FS.Stream) (out : IO.FS.Stream) : IO Unit := do
